@@ -29,6 +29,7 @@ type Script struct {
 	nextID    int
 	defs      map[string]string
 	curScope  int
+	byBody    map[string]string
 	scopes    []scopeInfo // index = scope id; entry 0 is the root
 }
 
@@ -89,7 +90,17 @@ func (s *Script) define(prefix, sort, body string) string {
 	if isAtom(body) {
 		return body
 	}
+	// identical terms share one name (hash-consing): keeps queries small and lets syntactic
+	// matching (e.g. squares) see through repeated loads
+	if s.byBody == nil {
+		s.byBody = map[string]string{}
+	}
+	key := sort + "|" + body
+	if n, ok := s.byBody[key]; ok {
+		return n
+	}
 	name := s.fresh(prefix)
+	s.byBody[key] = name
 	s.declared[name] = sort
 	if strings.Contains(body, "(ite ") && sort != "Bool" {
 		// terms with conditionals are named by a constant and an equation rather than a macro:
